@@ -246,6 +246,48 @@ func c09(r *mon.Run) {
 				t.Sample(map[string]interface{}{"expression": expr, "document": doc, "expected": expectedString(res)})
 			}
 		}}
+	// the same matrix with the arguments read from a document whose arrays are Go-typed slices ([]float64,
+	// []string, []map[string]interface{}, [][]float64 …): an array is an array whatever its Go type
+	typed := mon.Workload{Name: "typed-slice-arguments", N: len(cs), Batch: 2000,
+		Describe: func(i int) string {
+			tr, d := c09Tree(cs[i], true)
+			return gen.Spell(tr) + " on the typed-slice form of " + ref.Canon(d)
+		},
+		Do: func(i int, t *mon.Tally) {
+			tree, doc := c09Tree(cs[i], true)
+			expr := gen.Spell(tree)
+			res := ref.RefSet(tree, doc, gen.Quirks{})
+			t.Eval()
+			if res.Skipped != "" || res.DontCare {
+				return
+			}
+			if cs[i].fn == "contains" && len(cs[i].args) == 2 {
+				switch cs[i].args[1].(type) {
+				case []interface{}, map[string]interface{}:
+					// equality between an element kept as a typed slice and a converted needle is a matter of
+					// Go representation, which no property fixes (C18 claims navigation and 'no panic' only)
+					t.Count("skipped: contains() with an array or object needle on typed slices")
+					return
+				}
+			}
+			td := docs.Typify(mon.DeepCopy(doc))
+			if mon.Snapshot(td) == mon.Snapshot(doc) {
+				t.Count("typed-slice form identical to the generic form (no homogeneous array)")
+				return
+			}
+			o := apiSearch(expr, td)
+			if !o.Panicked && o.Err == nil {
+				o.V = docs.ToGeneric(o.V, false)
+			}
+			if !matches(res, o) {
+				r.Violate(&mon.Violation{Workload: "typed-slice-arguments", Index: i, API: "Search", Expr: expr, Doc: doc,
+					DocDesc:  "typed-slice form (docs.Typify) of " + ref.Canon(doc) + " = " + clipStr(mon.Snapshot(td), 300),
+					Expected: expectedString(res), Observed: o.String(), Class: "typed-slice-arguments: " + cs[i].fn + " differs on a typed slice"})
+				return
+			}
+			t.Count("typed-slice calls agreeing")
+			t.Nontrivial("ts:" + expr + ref.Canon(doc))
+		}}
 	// nested in random contexts
 	nr := tierPick(r, 40000, 1000000)
 	ctx := mon.Workload{Name: "calls-in-context", N: nr,
@@ -340,5 +382,5 @@ func c09(r *mon.Run) {
 				t.Nontrivial("large:" + expr + ref.Canon(doc))
 			}
 		}}
-	r.Exec(exh, ctx, large, sizedWorkload(r, "sized-arrays", false))
+	r.Exec(exh, typed, ctx, large, sizedWorkload(r, "sized-arrays", false))
 }
